@@ -637,15 +637,15 @@ class DiffXWriter(object):
 
         # Encode the content and newline in the specified encoding.
         if isinstance(newline, str):
-            newline = newline.encode(encoding)
+            newline = newline.encode(newline_encoding)
 
         if isinstance(content, str):
-            content = content.encode(encoding)
+            content = content.encode(newline_encoding)
 
         # Remove the newline's BOM, if needed (depending on the encoding)
         # so that we can safely append it to lines when splitting.
         newline = strip_bom(newline,
-                            encoding=encoding)
+                            encoding=newline_encoding)
 
         # If the content doesn't end in a newline, we'll need to add one.
         if not content.endswith(newline):
